@@ -20,10 +20,13 @@ PAGES = {
                "~ P4 240101#03 cancelled thing foo\n< 240101#04 blocked +proj\n> P0 240101#05 parent #work foo\n",
     "work.zo": "# work page #work\n\n- 240102#00 note about foo\no P3 240102#01 open work todo %bob\nx P2 240102#02 done work todo +proj\n"
                "o P0 240102#03 urgent @home due::2024-01-01\n- 240102#04 bar baz\n",
-    "misc.zo": "# misc\n\no 240103#00 lonely todo\n- 240103#01 lonely note +proj foo\nx 240103#02 lonely done %bob @home\n",
+    "misc.zo": "# misc\n\no 240103#00 lonely todo\n- 240103#01 lonely note +proj foo\nx 240103#02 lonely done %bob @home\n"
+               "- 240103#03 call Greg about the Open Issues #work\no 240103#04 write Order form +proj\n- 240103#05 Greg and Olga @home\n",
 }
 ATOMS = ["o", "x", "-", "~", "@home", "#work", "+proj", "%bob", "P0", "P0-2", "P3-9", "'foo'", "due:*", "!@home", "!#work",
-         "!due:*", "(o | x)", "(- | @home)", "f=work", "!'foo'"]
+         "!due:*", "(o | x)", "(- | @home)", "f=work", "!'foo'",
+         # multi-word quoted text whose words start with the clause-marker letters
+         "'call Greg'", '"write Order"', "'the Open Issues'", "!'Greg and Olga'", "'Greg'"]
 
 
 def gen_clause(rng, names, depth):
@@ -37,7 +40,8 @@ def gen_clause(rng, names, depth):
     return " | ".join(groups)
 
 
-TAG_ATOMS = ["@home", "#work", "+proj", "%bob", "'foo'", "due:*", "!@home", "!#work", "!due:*", "f=work", "!'foo'"]
+TAG_ATOMS = ["@home", "#work", "+proj", "%bob", "'foo'", "due:*", "!@home", "!#work", "!due:*", "f=work", "!'foo'", "'call Greg'",
+             "'the Open Issues'"]
 
 
 def gen_diamond(rng):
